@@ -51,7 +51,7 @@ func (s *MergeStream) win(t int64) int64 {
 	if !s.HasIv {
 		return 0
 	}
-	return t / iv
+	return floorDivW(t, iv)
 }
 
 // cmpRow: total order of rows (ascending): group, time, then cells with null first
@@ -365,10 +365,11 @@ func genMergeStream(r *gen.Rand, kind string) *MergeStream {
 	if s.Grouped {
 		ng = r.Range(1, 3)
 	}
+	sh := gen.Pick(r, []int64{0, 0, -1, -2, -4}) // windows before the epoch and straddling 0
 	for g := 0; g < ng; g++ {
 		n := r.Range(1, 7)
 		for i := 0; i < n; i++ {
-			t := int64(r.Range(0, 3))*iv + gen.Pick(r, []int64{0, 0, 1, 4, 9, 9})
+			t := (int64(r.Range(0, 3))+sh)*iv + gen.Pick(r, []int64{0, 0, 1, 4, 9, 9})
 			row := MRow{G: g, T: t, C: make([]*int64, ncol)}
 			any := false
 			for ci := range row.C {
